@@ -415,7 +415,11 @@ func (s *Stream) fillDataToReadBuffer(buf bufferSliceWrapper) error {
 	//stream had closed, which maybe closed by user due to timeout.
 	if s.getStreamState() == uint32(streamClosed) {
 		s.pendingData.clear()
-		s.recvBuf.recycle()
+		// with callbacks installed recvBuf belongs to the callback goroutine: an OnData may still be reading it.
+		// close() is waiting for that goroutine and recycles recvBuf itself afterwards (clean).
+		if s.getCallbacks() == nil {
+			s.recvBuf.recycle()
+		}
 		return nil
 	}
 	// Unblock any readers
